@@ -269,6 +269,11 @@ def gen_shift(rng, f: str):
     return rng.choice(KEYWORDS)
 
 
+def vals_short_ok(rng, f: str, shift, n: int) -> bool:
+    need = FVAL[f] if shift in ("yoy", "soy", "eopy") else (-shift if isinstance(shift, int) else 1)
+    return n > need + 1 or rng.chance(0.1)
+
+
 def carrier_for(kind: str, cls: str, rng) -> str:
     if kind in NEEDS_FLOAT:
         return "f"
@@ -287,6 +292,10 @@ def gen_change_lines(ctx: Ctx, rng, count: int):
         n = rng.choice([1, 2, 3, 5, 8, 13, 20, 30]) if rng.chance(0.5) else rng.randint(1, 30)
         vals = punch(rng, gen_values(rng, n, cls, f), rng.choice([0.0, 0.0, 0.1, 0.3]), rng.chance(0.3))
         shift = gen_shift(rng, f)
+        if not vals_short_ok(rng, f, shift, n):
+            # most series are long enough for the lag to leave something (a few stay short on purpose)
+            n = (FVAL[f] if shift in ("yoy", "soy", "eopy") else (-shift if isinstance(shift, int) else 1)) + rng.randint(2, 9)
+            vals = punch(rng, gen_values(rng, n, cls, f), rng.choice([0.0, 0.0, 0.1]), rng.chance(0.3))
         r = rng.random()
         if r < 0.03:
             shift = rng.choice([0, 1, 3])          # malformed: leads are rejected
@@ -383,8 +392,17 @@ def gen_cum_lines(ctx: Ctx, rng, count: int):
             g = rng.choice([x for x in FREQS if x != f])
             span_word = f"{g}:{BASE[g]}:{BASE[g] + 4}:1" if direction == "forward" else f"{g}:{BASE[g] + 4}:{BASE[g]}:-1"
         else:
-            a = rng.randint(lo - 1, hi)
-            b = rng.randint(a, hi + 2)
+            if rng.chance(0.8):
+                # mostly spans on which the recursion finds its initial values inside the series
+                if direction == "forward":
+                    a = rng.randint(min(lo + k, hi), hi)
+                    b = rng.randint(a, hi)
+                else:
+                    a = rng.randint(lo, max(lo, hi - k))
+                    b = rng.randint(a, max(a, hi - k))
+            else:
+                a = rng.randint(lo - 1, hi)
+                b = rng.randint(a, hi + 2)
             st = 1 if sp != "step" else rng.choice([2, 3])
             if sp == "emptyspan":
                 a, b = b + 1, a                  # start after end
@@ -674,7 +692,7 @@ def run_lines(ctx: Ctx, stream: str, triples):
     for (kind, c, line, _), out in list(zip(triples, impl))[:: max(1, len(lines) // 2)][:2]:
         ctx.sample({"stream": stream, "request": line[:400], "implementation": out[:300]})
     for out in impl:
-        ctx.count("impl_reply:" + (out if out.startswith("err") or out in ("empty", "bad-op") else "series"))
+        ctx.count(f"impl_reply:{stream}:" + (out if out.startswith("err") or out in ("empty", "bad-op") else "series"))
     if model is None:
         return
     ctx.streams_compared[stream] = ctx.streams_compared.get(stream, 0) + len(lines)
